@@ -637,6 +637,14 @@ func runAcctEngine(r *lib.Run, which string) {
 			break
 		}
 	}
+	if which == "C03" && r.Violations() == 0 {
+		// the forced schedules of C07 (readers of corrupt entries vs eviction / re-upload, refused commits, fetch vs
+		// upload ...) judged here for the accounting invariant only
+		hc := lib.NewHookCtl(uint64(r.Seed))
+		hc.Install()
+		runGateScenarios(r, hc, pool, rng, r.N(3, 30), true)
+		hc.Remove()
+	}
 	hookHits.Range(func(k, v any) bool {
 		r.CountN("hook."+k.(string), v.(*atomic.Int64).Load())
 		return true
